@@ -36,7 +36,7 @@ HostOf(s) == IF s = "s3" THEN "hB" ELSE "hA"
 Root(s) == <<HostOf(s), s>>
 RmvTag == "!Rmv"            \* PR_NAME_REMOVE_FROM_INDEX
 
-VARIABLES st,      \* the world: [tree, idx, ctr, marks, params, psub, conn, mirror]
+VARIABLES st,      \* the world: [tree, idx, ctr, born, clock, marks, params, psub, conn, mirror]
           n,       \* steps taken
           who,     \* the session that took the last step ("none" initially)
           kind,    \* "init" | "cmd" | "depart"
@@ -66,13 +66,15 @@ NotifySet(w, p, by) == {s \in w.conn : w.marks[p][s] > 0 /\ s # by}   \* NotifyS
 PutNode(w, p, pay, by) ==
     LET mk == IF p \in DOMAIN w.tree THEN w.marks[p] ELSE [s \in S |-> IF s \in w.conn THEN Cnt(w, s, p) ELSE 0]
         w1 == [w EXCEPT !.tree = (p :> pay) @@ w.tree, !.marks = (p :> mk) @@ w.marks,
-                        !.ctr = IF p \in DOMAIN w.ctr THEN w.ctr ELSE (p :> 0) @@ w.ctr]
+                        !.ctr = IF p \in DOMAIN w.ctr THEN w.ctr ELSE (p :> 0) @@ w.ctr,
+                        !.born = IF p \in DOMAIN w.born THEN w.born ELSE (p :> w.clock) @@ w.born,          \* children are kept (and walked) in the order of their creation
+                        !.clock = IF p \in DOMAIN w.born THEN w.clock ELSE w.clock + 1]
     IN [w1 EXCEPT !.mirror = [s \in S |-> IF s \in NotifySet(w1, p, by) THEN (p :> pay) @@ w1.mirror[s] ELSE w1.mirror[s]]]
 
 SetIdx(w, q, seq) == [w EXCEPT !.idx = IF seq = <<>> THEN [x \in DOMAIN w.idx \ {q} |-> w.idx[x]] ELSE (q :> seq) @@ w.idx]
 IdxOf(w, q) == IF q \in DOMAIN w.idx THEN w.idx[q] ELSE <<>>
 Without(seq, nm) == SelectSeq(seq, LAMBDA x : x # nm)
-InsertAt(seq, pos, nm) == SubSeq(seq, 1, pos - 1) \o <<nm>> \o SubSeq(seq, pos, Len(seq))
+InsAt(seq, pos, nm) == SubSeq(seq, 1, pos - 1) \o <<nm>> \o SubSeq(seq, pos, Len(seq))
 PosOf(seq, nm) == IF \E i \in 1..Len(seq) : seq[i] = nm THEN CHOOSE i \in 1..Len(seq) : seq[i] = nm ELSE Len(seq) + 1
 
 \* DataNode::RemoveChild(recurse): the subtree goes, the parent's index entry goes, the subscribers of each node are told (if tell)
@@ -80,7 +82,7 @@ RemoveSub(w, p, by, tell) ==
     LET gone == {q \in DOMAIN w.tree : Under(p, q)}
         keep == DOMAIN w.tree \ gone
         w1   == SetIdx(w, Parent(p), Without(IdxOf(w, Parent(p)), Leaf(p)))
-    IN [w1 EXCEPT !.tree = [q \in keep |-> w.tree[q]], !.marks = [q \in keep |-> w.marks[q]], !.ctr = [q \in keep |-> w.ctr[q]],
+    IN [w1 EXCEPT !.tree = [q \in keep |-> w.tree[q]], !.marks = [q \in keep |-> w.marks[q]], !.ctr = [q \in keep |-> w.ctr[q]], !.born = [q \in keep |-> w.born[q]],
                   !.idx = [q \in DOMAIN w1.idx \ gone |-> w1.idx[q]],
                   !.mirror = [s \in S |-> [q \in {x \in DOMAIN w.mirror[s] : ~(tell /\ x \in gone /\ s \in NotifySet(w, x, by))} |-> w.mirror[s][q]]]]
 
@@ -113,7 +115,7 @@ InsertOrdered(w, q, before, pay, by) ==
         nm == "I" \o ToString(k)
         w1 == PutNode([w EXCEPT !.ctr[q] = k + 1], q \o <<nm>>, pay, by)
         cur == IdxOf(w, q)
-    IN SetIdx(w1, q, InsertAt(cur, PosOf(cur, before), nm))
+    IN SetIdx(w1, q, InsAt(cur, PosOf(cur, before), nm))
 RECURSIVE InsertAll(_, _, _, _, _)
 InsertAll(w, qs, before, pay, by) == IF qs = {} THEN w ELSE LET q == CHOOSE x \in qs : TRUE IN InsertAll(InsertOrdered(w, q, before, pay, by), qs \ {q}, before, pay, by)
 
@@ -122,9 +124,9 @@ Reorder(w, p, before) ==
     LET q == Parent(p)  nm == Leaf(p)  cur == IdxOf(w, q)  wo == Without(cur, nm)
     IN IF before = nm THEN w
        ELSE IF before = RmvTag THEN SetIdx(w, q, wo)
-       ELSE SetIdx(w, q, InsertAt(wo, PosOf(wo, before), nm))
+       ELSE SetIdx(w, q, InsAt(wo, PosOf(wo, before), nm))
 RECURSIVE ReorderAll(_, _, _)
-ReorderAll(w, ps, before) == IF ps = {} THEN w ELSE LET p == CHOOSE x \in ps : TRUE IN ReorderAll(Reorder(w, p, before), ps \ {p}, before)
+ReorderAll(w, ps, before) == IF ps = {} THEN w ELSE LET p == CHOOSE x \in ps : \A y \in ps : w.born[x] <= w.born[y] IN ReorderAll(Reorder(w, p, before), ps \ {p}, before)
 
 \* a new SUBSCRIBE: parameter: +1 on every matching node, the matching nodes are sent (GETDATA), the parameter is stored
 Subscribe(w, s, x) ==
@@ -244,6 +246,7 @@ Menu == IF MenuKind = "full" THEN FullMenu ELSE SmallMenu
 (* initial state: what the harness sets up with ordinary commands before the history starts *)
 Empty == [tree |-> (<<"hA">> :> 0) @@ (<<"hB">> :> 0) @@ [s \in {Root(t) : t \in S} |-> 0],
           idx |-> <<>>, ctr |-> (<<"hA">> :> 0) @@ (<<"hB">> :> 0) @@ [s \in {Root(t) : t \in S} |-> 0],
+          born |-> (<<"hA">> :> 0) @@ (<<"hB">> :> 0) @@ [s \in {Root(t) : t \in S} |-> 0], clock |-> 1,
           marks |-> (<<"hA">> :> [s \in S |-> 0]) @@ (<<"hB">> :> [s \in S |-> 0]) @@ [q \in {Root(t) : t \in S} |-> [s \in S |-> 0]],
           params |-> [s \in S |-> {}], psub |-> [s \in S |-> {}], conn |-> S, mirror |-> [s \in S |-> <<>>]]
 Setup == <<
@@ -295,7 +298,7 @@ EraseSession(w, s) ==
     LET hostGone == ~\E t \in w.conn \ {s} : HostOf(t) = HostOf(s)
         gone == {p \in DOMAIN w.tree : Under(Root(s), p) \/ (hostGone /\ p = <<HostOf(s)>>)}
         keep == DOMAIN w.tree \ gone
-    IN [tree |-> [p \in keep |-> w.tree[p]], idx |-> [p \in DOMAIN w.idx \ gone |-> w.idx[p]], ctr |-> [p \in keep |-> w.ctr[p]],
+    IN [tree |-> [p \in keep |-> w.tree[p]], idx |-> [p \in DOMAIN w.idx \ gone |-> w.idx[p]], ctr |-> [p \in keep |-> w.ctr[p]], born |-> [p \in keep |-> w.born[p]], clock |-> w.clock,
         marks |-> [p \in keep |-> [w.marks[p] EXCEPT ![s] = 0]],
         params |-> [w.params EXCEPT ![s] = {}], psub |-> [w.psub EXCEPT ![s] = {}], conn |-> w.conn \ {s},
         mirror |-> [t \in S |-> IF t = s THEN <<>> ELSE [p \in DOMAIN w.mirror[t] \ gone |-> w.mirror[t][p]]]]
@@ -318,10 +321,10 @@ IdxSound == \A q \in DOMAIN st.idx : /\ q \in DOMAIN st.tree /\ st.idx[q] # <<>>
 TreeShape == /\ \A p \in DOMAIN st.tree : Len(p) >= 1 /\ (Len(p) > 1 => Parent(p) \in DOMAIN st.tree)
              /\ \A s \in S : (s \in st.conn) = (Root(s) \in DOMAIN st.tree)
              /\ \A p \in DOMAIN st.tree : Len(p) = 1 => \E s \in st.conn : HostOf(s) = p[1]
-             /\ DOMAIN st.marks = DOMAIN st.tree /\ DOMAIN st.ctr = DOMAIN st.tree
+             /\ DOMAIN st.marks = DOMAIN st.tree /\ DOMAIN st.ctr = DOMAIN st.tree /\ DOMAIN st.born = DOMAIN st.tree
 \* privilege bits are the server's to give
 NoPrivilege == \A s \in S : ~HasPriv(st, s)
 \* nobody but the departing session itself ever gets disconnected
-OnlySelfLeaves == [][st'.conn # st.conn => (kind' = "depart" /\ st'.conn = st.conn \ {who'})]_vars
+OnlySelfLeaves == [][st'.conn # st.conn => (kind' = "init" \/ (kind' = "depart" /\ st'.conn = st.conn \ {who'}))]_vars     \* ("init": a new execution in a trace)
 
 =============================================================================
